@@ -44,7 +44,14 @@ def history(ctx, fedjax, rng, nrounds, window, nclusters, allow_empty_domain, ba
   offs = [0.0, 2.0, -2.0][:nclusters]
   from fedjax.core import for_each_client as fec_mod  # pylint: disable=g-import-not-at-top
   with fec_mod.for_each_client_backend(backend):      # the backend is bound when the algorithms are built
-    agn, agn_init, _ = algs.build(fedjax, 'agnostic_fed_avg', case, window=window, domain_lr=rng.choice([0.125, 0.5]), init_window=[1.0, 1.0])
+    dlr = rng.choice([0.125, 0.5])
+    init_style = ('arrays', 'lists', 'default')[(nrounds + ncl + window) % 3]
+    try:
+      agn, agn_init, _ = algs.build(fedjax, 'agnostic_fed_avg', case, window=window, domain_lr=dlr, init_window=[1.0, 1.0], init_style=init_style)
+    except Exception as ex:  # pylint: disable=broad-except
+      ctx.violation('agnostic-cannot-be-built-with-list-weights-or-default-window', f'agnostic_federated_averaging(init_domain_weights=[0.5, 0.5] as {init_style}) raises '
+                    f'{type(ex).__name__}: {str(ex)[:160]}', replay={'init_style': init_style, 'window': window})
+      agn, agn_init, _ = algs.build(fedjax, 'agnostic_fed_avg', case, window=window, domain_lr=dlr, init_window=[1.0, 1.0])
     apfl, apfl_init, _ = algs.build(fedjax, 'apfl', case, coef=rng.choice([0.0, 0.5, 1.0]), copt=fedjax.optimizers.sgd(rng.choice([0.25, 1.0, 4.0])))
     # (a server optimizer with a step counter: an applied update is visible in the state even when the mean delta is zero)
     hyp_reg = 0.5 if allow_empty_domain else 0.0       # every second history: an L2 regulariser, part of "average loss"
